@@ -146,7 +146,7 @@ func (f *Func) callGraph(args *argBuilder) (
 
 		for _, raw := range g.Vertices() {
 			v2, ok := raw.(*valueVertex)
-			if !ok || v2.Type != v.Type || v2.Subtype == "" {
+			if !ok || v2.Name != v.Name || v2.Type != v.Type || v2.Subtype == "" {
 				continue
 			}
 
